@@ -89,6 +89,10 @@ type Unit struct {
 	lockSnaps  map[string]*State
 	inlineSites []token.Pos // call positions (outermost first) of the inlined callees being executed
 	rootFn      *types.Func // the function under contract this unit (or literal unit) belongs to
+	shape       *bodyShape // loops / literals of this unit's own body (current tree)
+	goneLoops   []int      // baseline loop ordinals without a counterpart in the current body
+	goneLits    []int
+	newHelpers  []string // callees without contract, not inlinable, that did not exist in the baseline
 	curBin      string // source text of the binary expression being evaluated (obligation names)
 	loopRegion  bool // modified() is computing a loop's modified set
 	forceInline map[*types.Func]bool // bounded units: inline these (recursive) callees instead of using contracts
@@ -260,6 +264,33 @@ func (u *Unit) newFrame(fn *types.Func, sig *types.Signature, body *ast.BlockStm
 	fr := &frame{fn: fn, sig: sig, info: info, pkg: pkg, spec: spec, body: body}
 	if body != nil {
 		fr.loopOrd, fr.litOrd, fr.callOrd, fr.labels = ordinals(body)
+		if len(u.frames) == 0 && u.shape == nil {
+			// the unit's own body: remember its shape, and address its loops and literals by the
+			// ordinals they had in the baseline
+			savedFn := u.fn
+			if u.fn == nil {
+				u.fn = fn
+			}
+			sh := u.shapeOf(body, info, fr.loopOrd, fr.litOrd)
+			u.fn = savedFn
+			u.shape = &sh
+			if base, ok := u.eng.shapesBase[u.name]; ok {
+				if strings.Join(base.Loops, "\x00") != strings.Join(sh.Loops, "\x00") {
+					mp, gone := alignOrdinals(base.Loops, sh.Loops)
+					for n, k := range fr.loopOrd {
+						fr.loopOrd[n] = mp[k]
+					}
+					u.goneLoops = gone
+				}
+				if strings.Join(base.Lits, "\x00") != strings.Join(sh.Lits, "\x00") {
+					mp, gone := alignOrdinals(base.Lits, sh.Lits)
+					for l, k := range fr.litOrd {
+						fr.litOrd[l] = mp[k]
+					}
+					u.goneLits = gone
+				}
+			}
+		}
 	}
 	// result variables: named ones from the signature, synthetic otherwise
 	res := sig.Results()
